@@ -19,6 +19,11 @@ def fixture(kind):
             _FIX[kind] = cf.romfs_bytes()
         elif kind == 'exefs':
             _FIX[kind] = cf.exefs_bytes()
+        elif kind == 'exefs-plaincode':
+            # '.code' that is not compressed (zero LZSS footer): '.code-decompressed' then aliases the stored file
+            import ncchbuild
+            _FIX[kind] = ncchbuild.build_exefs_plain([('.code', bytes(range(200)) * 3 + bytes(8)), ('banner', b'\x22' * 0x230),
+                                                      ('icon', b'\x33' * 0x40)])[0]
         elif kind == 'ncch-plain':
             _FIX[kind] = cf.ncch_bytes(False)
         elif kind == 'ncch-split':
@@ -58,6 +63,13 @@ def _make_reader(kind, fx):
         base = tl.LogBytesIO(fx)
         r = ExeFSReader(base)
         return base, r, {'banner': lambda: r.open('banner'), 'code': lambda: r.open('.code')}
+    if kind == 'exefs-plaincode':
+        from pyctr.type.exefs import ExeFSReader
+        base = tl.LogBytesIO(fx)
+        r = ExeFSReader(base)
+        r.decompress_code()
+        return base, r, {'banner': lambda: r.open('banner'), 'code': lambda: r.open('.code'), 'icon': lambda: r.open('icon'),
+                         'code-dec': lambda: r.open('.code-decompressed')}
     if kind.startswith('ncch'):
         from pyctr.type.ncch import NCCHReader, NCCHSection
         base = tl.LogBytesIO(fx)
@@ -101,6 +113,7 @@ def _make_reader(kind, fx):
 
 
 HANDLES = {'windows': ['w1', 'w2', 'w3'], 'romfs': ['a', 'c', 'b'], 'exefs': ['banner', 'code'],
+           'exefs-plaincode': ['banner', 'code', 'icon', 'code-dec'],
            'ncch-plain': ['raw-exefs', 'raw-romfs', 'raw-exh', 'full', 'exefs.banner', 'exefs.code', 'romfs.a'],
            'ncch-split': ['raw-exefs', 'raw-romfs', 'raw-exh', 'full', 'exefs.banner', 'exefs.code', 'romfs.a'],
            'cia': ['raw-tmd', 'raw-0', 'c0.raw-exefs', 'c0.exefs.banner', 'c0.romfs.a'],
